@@ -25,10 +25,17 @@ type Load struct {
 // traverse; unresolved links are reported missing and their subtree skipped.
 func RefRequest(d *kit.DAG, local, remote func(int) bool) []Load {
 	var out []Load
+	// a block obtained from the responder is stored locally and is the
+	// requestor's own from then on (it may be reached again below a link the
+	// responder cannot follow)
+	obtained := map[int]bool{}
 	var visit func(i int, path string, reach bool)
 	visit = func(i int, path string, reach bool) {
 		availRemote := reach && remote(i)
-		l := local(i)
+		l := local(i) || obtained[i]
+		if !l && availRemote {
+			obtained[i] = true
+		}
 		out = append(out, Load{Path: path, Link: i, Resolved: l || availRemote, Remote: !l && availRemote})
 		if !(l || availRemote) {
 			return
